@@ -31,6 +31,21 @@ CHECKS = {
  "C20": ("E1", "exhaustive enumeration: every reply code 400..599 x 5 text kinds x every failing position x failing message x ESC advertised or not, plus pairs of failing messages; reference function as oracle",
          "The full product is executed on the real Send path of a 3x3 batch and compared with a reference function of the replies actually sent.",
          "Rejected-recipient list read from SendError.Error(); refsmtp trusted.", "§4 C20"),
+ "C01": ("E3", "bounded-exhaustive enumeration of builder programs (0..3 parts x 0..2 embeds x 0..2 attachments x encodings x content alphabets) re-read by an independent MIME reader and compared with a reference model leaf by leaf",
+         "Every program of the small scope is rendered by the real code and parsed by a reader that shares no code with Go's mime packages; contents rotate through alphabets that hit every wrap point and shortcut; every single byte value in every encoding.",
+         "Trusts harness/mimeread (strict RFC 2045/2046 splitter, own QP/base64 decoders); media types of files from mime.TypeByExtension.", "§4 C01"),
+ "C02": ("E3", "bounded-exhaustive input enumeration (every byte at 3 positions, all 2-/3-grams over 16 dangerous symbols, boundary lengths) per text-accepting setter x shape x encoder, with a differential oracle against the same message built with a benign value",
+         "14 setters x ~1000 (quick) / ~5000 (thorough) hostile values x 3 shapes x 2 encoders plus setter pairs; the field-name multiset of every header section and all bodies must equal the benign rendering and the value must decode back.",
+         "Differential baseline assumes the benign value renders correctly (C01); *Preformatted setters excluded by contract.", "§4 C02"),
+ "C08": ("E3", "bounded-exhaustive enumeration of message shapes x modifiers x key types x 3 consecutive renders x map-iteration starts; every output verified by an independent CMS verifier",
+         "All 35 non-empty part/embed/attachment count combinations x encodings x 7 header modifiers, ECDSA and RSA, with/without intermediate; digest of the first part as emitted and signature over the DER SET of signed attributes are recomputed by harness/cmsverify (validated against OpenSSL vectors).",
+         "Content in canonical CRLF form; map order owned through the runtime overlay seam.", "§4 C08"),
+ "C11": ("E1", "exhaustive enumeration of operation histories: all sequences of length 2..3 (thorough ..4) over 9 render operations x shapes x file sources x encodings x map-iteration start per operation; oracle = byte equality with the first output",
+         "Histories are executed on fresh real messages (Date/Message-ID/boundaries generated by go-mail); Go's map-iteration randomness is owned by a runtime seam and enumerated; the Send path is compared through the reference server's commit log.",
+         "Runtime map.go overlay seam (falls back to non-exhaustive if the toolchain differs); S/MIME compares the signed entity.", "§4 C11"),
+ "C18": ("E3", "bounded-exhaustive enumeration of header word-length combinations and of ALL ways to split a producer's output (every <=2/3 cut set, every uniform chunk size, all 2^12 splittings of 13 blocks) for every content length 0..200; independent line scanner as oracle",
+         "~380k (quick) renderings; each is scanned for CRLF-only, 76/78 limits, unfold identity and decode identity.",
+         "Contents are generated patterns, not arbitrary bytes (C01 covers byte values).", "§4 C18"),
 }
 NOT_YET = {}
 def main():
